@@ -310,6 +310,13 @@ func runC16Once(c bson.D, x *Ctx) error {
 	}
 	var tpos int64
 	hook := func(point string) {
+		if point == "close.unlocked" {
+			// shutdown happens at most once per case: always hold the window
+			// between Close dropping the engine lock and the rest of the
+			// shutdown open for the other actors
+			time.Sleep(3 * time.Millisecond)
+			return
+		}
 		i := atomic.AddInt64(&tpos, 1) - 1
 		if int(i) >= len(tape) {
 			return
